@@ -23,6 +23,7 @@ def main():
     if "--demo-args" in sys.argv:   # e.g. "--no-default-features --features std,rgba,image"
         feats = " " + sys.argv[sys.argv.index("--demo-args") + 1]
     only_check = "--only-check" in sys.argv
+    no_check = "--no-check" in sys.argv    # steps 1-4 only (they live in the seed's own worktree, so several can run in parallel)
     out = os.path.join(wt, "out")
     patch, demo, note = (os.path.join(out, f"{ab}{s}") for s in (".diff", "_demo.rs", ".md"))
     dest = f"/verif/seeded/{sid}"
@@ -60,6 +61,9 @@ def main():
         })
         meta["confirmed"] = bool(meta["patch_applies"] and meta["demo_without_change"]["passes"] and meta["suite_with_change"]["all_674_pass"] and meta["demo_with_change"]["fails"])
         if rc0 != 0: meta["demo_without_change"]["tail"] = o0[-600:]
+    if no_check:
+        json.dump(meta, open(meta_path, "w"), indent=1)
+        print(json.dumps({k: meta[k] for k in ("seed_id", "confirmed") if k in meta})); return
     # 5. our check against it
     rcd, _ = sh("git diff --quiet", cwd="/repo")
     if rcd != 0:
